@@ -376,6 +376,7 @@ async fn batch_candidates(
                     let buffed = buf.entry(table.clone()).or_default();
 
                     for (pk, cl) in pk_map {
+                        let newest = cl_cache.len().saturating_sub(1);
                         let e = cl_cache.entry((table.clone(), pk.clone()));
                         match e {
                             Entry::Occupied(mut o) => {
@@ -383,6 +384,9 @@ async fn batch_candidates(
                                     continue;
                                 }
                                 o.insert(cl);
+                                // a key that changed again is as recent as a new one:
+                                // trimming the cache must not drop it before older keys
+                                o.move_index(newest);
                             }
                             Entry::Vacant(v) => {
                                 v.insert(cl);
